@@ -142,3 +142,16 @@ Proof.
   intros S B. rewrite !filter_spec_l by exact S. apply filter3_perm.
   intros r. unfold row_passes. now apply partition3_l.
 Qed.
+
+(** the range-scan path of [plan_filter] is not the filter (Int64 property against a Float64 bound) *)
+Lemma range_path_refuted_l : exists tab rows p, bpred p = true /\
+  rows_of (where_chunks fa_none tab p rows) <> filter (row_passes fa_none (tab_env tab) p) rows.
+Proof.
+  exists [[Some (VInt 5)]], [[VInt 0]], (EBin Gt (EVar 0) (ELit (VFloat 4609434218613702656))).
+  split; [reflexivity|]. vm_compute. discriminate.
+Qed.
+Lemma where_no_range_l fa tab p rows : range_pred p = None ->
+  rows_of (where_chunks fa tab p rows) = filter (row_passes fa (tab_env tab) p) rows.
+Proof.
+  intros H. unfold where_chunks. rewrite H. rewrite filter_spec_l by apply scan_sel_free. now rewrite scan_rows.
+Qed.
